@@ -50,6 +50,14 @@ def run(c):
     c.r1("hydrate-adds-full-parts", HYD, EXT, start=CUT, sink="ok", via=0, called_only=True, desc="hydrate_from: the compact block's full outputs / kernels are added after cut-through")
     # --- deaggregate
     c.r1("deaggregate-aggregates-subset", DEAGG, AGG, sink=TXNEW, via=1, desc="deaggregate: the known subset is aggregated before the remainder is built")
+    # sum_kernel_offsets returns zero as soon as its *positive* list is empty (after dropping zero offsets) and never looks at the negative
+    # one; it is therefore only usable where nothing is subtracted, or where the positive side was shown non-zero first. The call sites are a
+    # closed, reviewed set: aggregate / Block::from_reward (empty negative list) and Block::block_kernel_offset (the equal-sums case is taken
+    # before the call). deaggregate subtracts the known offsets from a possibly zero aggregate offset and has its own both-sides-empty test.
+    c.r3("sum-kernel-offsets-callers", SKO, {AGG, "grin_core::core::block::Block::from_reward", "grin_core::core::block::Block::block_kernel_offset"}, floor_sites=3,
+         desc="sum_kernel_offsets (zero when the positive list is empty, whatever is subtracted) is called only where that shortcut was reviewed")
+    c.r2_arg("from-reward-no-negative-offsets", "grin_core::core::block::Block::from_reward", SKO, 1, must=["call:Vec::new"],
+             desc="Block::from_reward: nothing is subtracted from the offset sum (empty negative list)")
     # --- compact block
     CB = "re:^<grin_core::core::compact_block::CompactBlock as core::convert::From<grin_core::core::block::Block>>::from$"
     c.r1("compact-body-init", CB, "grin_core::core::compact_block::CompactBlockBody::init", sink="return", via=0, called_only=True,
